@@ -134,7 +134,7 @@ PROPS = {
         families=[('floor', 400, 12000, 'small', 'large')],
         rule='F_floor scenarios: layered production lines (sources incl. cycle 0 and finite budgets, handlers, processors with resources/callbacks/work orders, buffers with delay and capacity, batchers, decision gates, flow controllers, shared groups reached through several paths, sinks), scripted failures/shutdowns/restores/blocking/capacity changes, many single steps then runs, generated from VERIF_SEED (corpus/floor first); '
              'non-trivial = a processor declares resources and at least 4 resource records were written; distinct by scenario text',
-        explanation='World-level invariant proved for every reachable state (every event, any weights): pool usage = sum of declared requirements of holding devices, each holder holds exactly its declaration, no sharing; acceptance needs the reservation; failure releases; shutdown keeps. "No idle operational processor holds resources when time advances" decided by the monitor. PARTIAL for that clause.',
+        explanation='World-level invariant proved for every reachable state (every event, any weights): pool usage = sum of declared requirements of holding devices, each holder holds exactly its declaration, no sharing; acceptance needs the reservation; failure releases; shutdown keeps. Queue-level link invariant proved for every state reached without an exception, including every state inside a run: a holder without a part in process has its own uncancelled RELEASE event pending at the current instant (or paused with the shut-down device), hence no idle operational processor holds resources when time advances (C11_idle_holds_nothing).',
         assumptions=['well-posed layouts', 'requests with distinct resource names']),
     'C15': dict(
         vfile='Props/C15.v', ties=['Tie/TieEnv.v', 'Tie/TieFloor.v', 'Tie/TieRM.v', 'Tie/TieMaint.v'],
@@ -257,9 +257,9 @@ LEVELS = {
         design_ref='DESIGN.md sections 0.3 and 8, C08', technique='Coq proof (routing lemmas: permutation + sortedness of the offer order, refusal guards) + lock-step correspondence + routing monitor',
         note='Partial: whole-route history and group-path matching not theorems.'),
     'C11': dict(
-        text='Machine-checked world-level invariant (pools, reservation objects and device holdings agree) preserved by every world step, event, call and system step; exact holdings; no sharing; acceptance needs the reservation; failure releases; shutdown keeps. PARTIAL for the clause about idle processors at clock advances (event-queue level), decided by the monitor.',
-        design_ref='DESIGN.md sections 0.3 and 8, C11', technique='Coq proof (world-level invariant over labelled world steps, using the C09 operation specifications) + lock-step correspondence + resource monitor',
-        note='Initial-state establishment proved from a simple predicate (nothing reserved yet); decode => that predicate validated by lock-step.'),
+        text='Machine-checked world-level invariant (pools, reservation objects and device holdings agree) preserved by every world step, event, call and system step; exact holdings; no sharing; acceptance needs the reservation; failure releases; shutdown keeps. Machine-checked queue-level link invariant (Proofs/FloorLink.v, FloorIdle.v): in every state reached without an exception, a holder with no part in process owns an uncancelled RELEASE event pending now (or paused while it is shut down); so whenever time advances no idle operational processor holds resources.',
+        design_ref='DESIGN.md sections 0.3 and 8, C11', technique='Coq proof (world-level invariant over labelled world steps, using the C09 operation specifications; device/event-queue link invariant over a second step decomposition with compound steps) + lock-step correspondence + resource monitor',
+        note='The idle clause is proved for exception-free histories (every driver status 0); after a Python exception the state is whatever the aborted action left and only the world-level invariant is claimed. Initial-state establishment from a decidable predicate validated by lock-step.'),
     'C15': dict(
         text='PARTIAL. Machine-checked: the record list only grows during an action; receive/level/failure/resource records carry the state of their moment; level = stored parts. Exactly-one-record-per-occurrence and counters = record counts decided by the record monitor and lock-step over the full data log after every event.',
         design_ref='DESIGN.md sections 0.3 and 8, C15', technique='Coq proof (append-only log over all world steps, record payload lemmas) + lock-step correspondence on the full data log + record monitor',
